@@ -131,6 +131,29 @@ func buildC02() {
 		t2 := &wire.Template{ID: 302, Fields: []wire.Field{{ID: 1, Len: 65535, Type: "unsigned64"}}}
 		add("ipfix", "unsigned64 declared 65535 long", dg{a4, enc("ipfix", tplSet(t2))}, dg{a4, enc("ipfix", raw(302, g.Bytes(100)))})
 	}
+	// (g) accumulated state: an exporter that has announced 24 000 templates (three 64 KiB datagrams of one-field
+	// templates), then datagrams that are nothing but header-only data sets of ids it never announced - 368 in 1492
+	// octets, 16 000 in 64 KiB. The cost of a datagram must follow its own octets, not what the cache has grown to.
+	for _, p := range []string{"ipfix", "nf9"} {
+		var hist []dg
+		id := 256
+		for d := 0; d < 3; d++ {
+			var ts []*wire.Template
+			for k := 0; k < 8000; k++ {
+				ts = append(ts, &wire.Template{ID: uint16(id), Fields: []wire.Field{{ID: 4, Len: 1, Type: "unsigned8"}}})
+				id++
+			}
+			hist = append(hist, dg{a4, enc(p, tplSet(ts...))})
+		}
+		for _, n := range []int{368, 16000} {
+			var sets []wire.Set
+			for k := 0; k < n; k++ {
+				sets = append(sets, raw(uint16(40000+k%20000), nil))
+			}
+			h := append(append([]dg{}, hist...), dg{a4, enc(p, sets...)})
+			add(p, fmt.Sprintf("%s: 24000 templates announced, then a datagram of %d header-only data sets of unknown templates", p, n), h...)
+		}
+	}
 	// (d) maximal legitimate record counts: 65507-octet datagrams packed with 1-octet records
 	for _, p := range []string{"ipfix", "nf9"} {
 		t := &wire.Template{ID: 303, Fields: []wire.Field{{ID: 4, Len: 1, Type: "unsigned8"}}}
